@@ -142,7 +142,7 @@ def gen_history(rng, idx):
         nxt = R.gen_plant_case(rng, idx, kind=kind)         # only to draw input shapes; re-draw inputs for the SAME spec
         # the same breaker configurations in the same order as the calculation before, switched at other times
         shifted = same_configurations_other_times(rng, calcs[-1].get("breaker")) if (kind != "mechanical" and rng.random() < 0.35) else None
-        n_forced = None if shifted is None else len(shifted[0])
+        n_forced = (calcs[-1]["n"] if rng.random() < 0.5 else None) if shifted is None else len(shifted[0])
         if kind == "electric":
             inp = E.gen_inputs(rng, base["spec"], n=n_forced, capacity_ok=True)
         elif kind == "mechanical":
@@ -157,6 +157,12 @@ def gen_history(rng, idx):
             inp = {"n": ein["n"], "dt": ein["dt"], "breaker": ein["breaker"], "comp": ein["comp"], "mech": mi["comp"],
                    "flags": {k: v for k, v in ein.items() if k not in ("n", "dt", "breaker", "comp")},
                    "mech_flags": {k: v for k, v in mi.items() if k not in ("n", "dt", "comp")}}
+        if kind != "mechanical" and inp["n"] == calcs[-1]["n"] and rng.random() < 0.6:
+            inp["breaker_table_in_place"] = True           # same series length: the breaker table of the calculation before is updated in place
+            if "flags" in inp:
+                inp["flags"]["breaker_table_in_place"] = True
+            fl = inp.get("flags", inp)
+            fl.setdefault("dtype", {})["breaker"] = (calcs[-1].get("flags", calcs[-1]).get("dtype", {}) or {}).get("breaker", "bool")
         if shifted is not None:
             inp["breaker"] = shifted
             inp["shifted_breakers"] = True
